@@ -50,6 +50,18 @@ Fixpoint accept_invs (mws : list mw) (s : script) (w0 : world) (l : list inv_obs
 Definition c19_violates (c : c19_case) : bool :=
   negb (accept_invs (k_mws c) (k_script c) (init_world (k_init c)) (k_invs c)).
 
+(** which clauses fail, at the first rejected invocation: 100*i + 10*(retry chain) + clause *)
+Fixpoint reasons_invs (n : nat) (mws : list mw) (s : script) (w0 : world) (l : list inv_obs) : list nat :=
+  match l with
+  | [] => []
+  | i :: l' =>
+      let '(rt, cl) := clauses mws s w0 (i_trace i) (i_res i) (i_after i) in
+      if all_true cl then reasons_invs (S n) mws s (W (unview (i_after i)) (w_calls w0 + ncalls (i_trace i)) []) l'
+      else map (fun k => 100 * n + (if rt then 10 else 0) + k) (positions (map negb cl))
+  end.
+Definition c19_reasons (c : c19_case) : list nat :=
+  reasons_invs 0 (k_mws c) (k_script c) (init_world (k_init c)) (k_invs c).
+
 Definition c19_mismatches (v : variant) (cs : list c19_case) : list nat := positions (map (c19_mismatch v) cs).
 Definition c19_violations (cs : list c19_case) : list nat := positions (map c19_violates cs).
 
